@@ -188,6 +188,73 @@ def exhaustive_members(name, rep):
     rep.evaluated()
 
 
+def expect_modes(env, modes, where):
+    """the environment behaves according to the requested modes"""
+    from gymnasium import spaces
+    base = getattr(env, "unwrapped", env)
+    out = env.reset()
+    if not isinstance(out, tuple) or len(out) != 2:
+        raise Failure("C10:reset-tuple", f"{where}: reset returned {type(out)}")
+    obs = np.asarray(out[0])
+    if (obs.ndim == 1) is not bool(modes["flat_obs"]):
+        raise Failure("C10:entry-flat-obs", f"{where}: observation has {obs.ndim} dimensions, flat_obs={modes['flat_obs']}")
+    flat = isinstance(env.action_space, spaces.Discrete)
+    if flat is not bool(modes["flat_actions"]) or (not flat and not isinstance(env.action_space, spaces.MultiDiscrete)):
+        raise Failure("C10:entry-flat-actions", f"{where}: action space {type(env.action_space).__name__}, flat_actions={modes['flat_actions']}")
+    t = base.current_state.tensor
+    o2 = obs.reshape(t.shape[0] + 1, t.shape[1])
+    full = bool(np.array_equal(o2[:-1], t))
+    if full is not bool(modes["fully_obs"]):
+        raise Failure("C10:entry-fully-obs", f"{where}: initial observation {'equals' if full else 'differs from'} the state, fully_obs={modes['fully_obs']}")
+    check_obs(base, base.scenario, np.asarray(out[0]), modes, where + " reset")
+    env.action_space.seed(3)
+    for k in range(8):
+        a = env.action_space.sample()
+        np.random.seed(k)
+        res = env.step(a)
+        check_step_tuple(res, f"{where} step {k}")
+        check_obs(base, base.scenario, np.asarray(res[0]), modes, f"{where} step {k}")
+
+
+def entry_points(rep, tier):
+    """every documented way of constructing an environment honours the requested modes:
+    nasim.make_benchmark / nasim.load / nasim.generate keyword arguments and the registered
+    Gymnasium ids ScenarioName[PO][2D][VA]-v0"""
+    import warnings
+    import gymnasium as gym
+    import nasim
+    names = [("tiny", "Tiny"), ("tiny-small", "TinySmall"), ("small-gen", "SmallGen")]
+    if tier == "thorough":
+        names += [("small", "Small"), ("medium-single-site", "MediumSingleSite"), ("tiny-gen-rgoal", "TinyGenRgoal")]
+    n = 0
+    for modes in MODE_LIST:
+        case0 = dict(entry_point=True, modes=modes)
+        try:
+            for bench, camel in names:
+                expect_modes(nasim.make_benchmark(bench, 1, **modes), modes, f"make_benchmark('{bench}', **{modes})")
+                gid = camel + ("" if modes["fully_obs"] else "PO") + ("" if modes["flat_obs"] else "2D") + ("" if modes["flat_actions"] else "VA") + "-v0"
+                with warnings.catch_warnings():
+                    warnings.simplefilter("ignore")
+                    try:
+                        genv = gym.make(gid)
+                    except Exception as e:
+                        raise Failure("C10:gym-make", f"gymnasium.make('{gid}') raised {type(e).__name__}: {e}")
+                    expect_modes(genv, modes, f"gymnasium.make('{gid}')")
+                n += 2
+            expect_modes(nasim.load(sources.shipped_path("tiny-hard"), **modes), modes, f"nasim.load(tiny-hard, **{modes})")
+            expect_modes(nasim.generate(6, 2, seed=4, host_discovery_value=2, **modes), modes, f"nasim.generate(6, 2, **{modes})")
+            n += 2
+        except Failure as f:
+            rep.fail(f.bucket, f.detail, case0)
+        except Exception as e:
+            inside, where = engine.from_nasim(sys.exc_info()[2])
+            if not inside:
+                raise
+            rep.fail(f"C10:exception:{type(e).__name__}@{where}", f"{type(e).__name__}: {e} at {where} (entry points, modes {modes})", case0)
+    rep.count("entry-point-environments", n)
+    rep.evaluated()
+
+
 class _Runner:
     def __init__(self, rep):
         self.rep = rep
@@ -218,6 +285,7 @@ def main(tier, replay=None):
         return 0
     for name in (["tiny", "tiny-hard", "tiny-small"] + (["small", "small-honeypot"] if tier == "thorough" else [])):
         exhaustive_members(name, rep)
+    entry_points(rep, tier)
     for name in sources.shipped_names():
         for modes in MODE_LIST:
             run_case(dict(source={"kind": "shipped", "name": name}, modes=modes,
